@@ -170,6 +170,10 @@ static int (*real_close)(int);
 static int (*real_stat)(const char *, struct stat *);
 static ssize_t (*real_writev)(int, const struct iovec *, int);
 static ssize_t (*real_pwrite)(int, const void *, size_t, off_t);
+static int (*real_fsync)(int);
+static int (*real_fdatasync)(int);
+static int (*real_ftruncate)(int, off_t);
+static struct dirent *(*real_readdir)(DIR *);
 
 __attribute__((constructor)) static void
 resolve(void)
@@ -191,6 +195,10 @@ resolve(void)
 	real_stat = dlsym(RTLD_NEXT, "stat");
 	real_writev = dlsym(RTLD_NEXT, "writev");
 	real_pwrite = dlsym(RTLD_NEXT, "pwrite");
+	real_fsync = dlsym(RTLD_NEXT, "fsync");
+	real_fdatasync = dlsym(RTLD_NEXT, "fdatasync");
+	real_ftruncate = dlsym(RTLD_NEXT, "ftruncate");
+	real_readdir = dlsym(RTLD_NEXT, "readdir");
 }
 
 /* the flush of a thread's staging buffer: other threads may run while it is written */
@@ -211,6 +219,10 @@ int close(int fd) { sched_point(); return real_close(fd); }
 int stat(const char *p, struct stat *st) { sched_point(); return real_stat(p, st); }
 ssize_t writev(int fd, const struct iovec *v, int n) { sched_point(); return real_writev(fd, v, n); }
 ssize_t pwrite(int fd, const void *b, size_t n, off_t o) { sched_point(); return real_pwrite(fd, b, n, o); }
+int fsync(int fd) { sched_point(); return real_fsync(fd); }
+int fdatasync(int fd) { sched_point(); return real_fdatasync(fd); }
+int ftruncate(int fd, off_t n) { sched_point(); return real_ftruncate(fd, n); }
+struct dirent *readdir(DIR *d) { sched_point(); return real_readdir(d); }
 int mkdir(const char *p, mode_t m) { sched_point(); return real_mkdir(p, m); }
 int rmdir(const char *p) { sched_point(); return real_rmdir(p); }
 int remove(const char *p) { sched_point(); return real_remove(p); }
